@@ -17,9 +17,9 @@ typedef struct {
   uint64_t runs, configs, fam[12], variant_use[16], probes[16];
 } ccov_t;
 static ccov_t *cov;
-enum { Q_PLE_RECURSIVE, Q_STRASSEN_RECURSED, Q_M4RM_MULTIBLOCK, Q_TRSM_RECURSIVE, Q_TRTRI_RECURSIVE, Q_MMC_BYPASS, Q_NOSSE, Q_OMP, Q_K_CLAUSE, Q_SMALL_L1_STRIPS, Q_NQ };
+enum { Q_PLE_RECURSIVE, Q_STRASSEN_RECURSED, Q_M4RM_MULTIBLOCK, Q_TRSM_RECURSIVE, Q_TRTRI_RECURSIVE, Q_MMC_BYPASS, Q_NOSSE, Q_OMP, Q_K_CLAUSE, Q_SMALL_L1_STRIPS, Q_XVAL_PAIRS, Q_XVAL_KNOB_EFFECT, Q_NQ };
 static const char *q_names[Q_NQ] = { "ple_recursive_regime", "strassen_recursed", "m4rm_more_than_one_block", "trsm_recursive_regime", "trtri_recursive_regime", "block_above_cache_threshold",
-                                     "no_sse2_variant", "openmp_variant_on_simulated_runtime", "k_reduced_by_cache_clause", "column_permutation_in_several_strips" };
+                                     "no_sse2_variant", "openmp_variant_on_simulated_runtime", "k_reduced_by_cache_clause", "column_permutation_in_several_strips", "xval_knob_vs_constant_pairs", "xval_cache_sizes_changed_the_allocation_pattern" };
 
 static const lib_t *REF;
 #define MAXREG 4
@@ -188,7 +188,7 @@ static void child_run(void *ud) {
   for (char *p = strtok(copy, "\n"); p; p = strtok(NULL, "\n")) {
     if (p[0] == '#' || !p[0]) continue;
     if (!strncmp(p, "family ", 7)) { sscanf(p, "family %31s %d", fam, &full); continue; }
-    if (!strncmp(p, "cfg ", 4)) { if (ncfg < 128) cfgl[ncfg++] = p; continue; }
+    if (!strncmp(p, "cfg ", 4) || !strncmp(p, "xcfg ", 5)) { if (ncfg < 128) cfgl[ncfg++] = p; continue; }
     if (!strncmp(p, "same 2 1", 8)) { c.m[2] = c.m[1]; continue; } /* squaring: both factors are the same object */
     int rc = prog_exec_line(&c, p);
     if (rc) { sim_shared->aux[1] = 1; snprintf(sim_shared->note, sizeof sim_shared->note, "skip %.80s", p); return; }
@@ -208,6 +208,43 @@ static void child_run(void *ud) {
     long l1, l2, l3;
     int k, cutoff, route, team, fl;
     unsigned long long ss;
+    if (!strncmp(cfgl[i], "xcfg ", 5)) { /* cross-validation of the knob mechanism: knob build at a triple vs a build with the same triple as literal constants */
+      char kn[32], cn[32];
+      if (sscanf(cfgl[i], "xcfg %31s %31s %ld %ld %ld %d %d %d %d", kn, cn, &l1, &l2, &l3, &k, &cutoff, &route, &fl) != 9) continue;
+      const lib_t *LK = lib_by_name(kn), *LC = lib_by_name(cn);
+      if (!LK || !LC) continue;
+      canon_t gk, gc, gr;
+      uint64_t a0, b0, ak, bk, ac, bc, ar, br;
+      m4sim_l1 = (int)l1; m4sim_l2 = (int)l2; m4sim_l3 = (int)l3;
+      LK->m4ri_mmc_cleanup(); a0 = heap_stats.requests_nonzero; b0 = heap_stats.bytes_requested;
+      eval_family(fam, LK, route, k, cutoff, fl, &gk);
+      LK->m4ri_mmc_cleanup(); ak = heap_stats.requests_nonzero - a0; bk = heap_stats.bytes_requested - b0;
+      LC->m4ri_mmc_cleanup(); a0 = heap_stats.requests_nonzero; b0 = heap_stats.bytes_requested;
+      eval_family(fam, LC, route, k, cutoff, fl, &gc);
+      LC->m4ri_mmc_cleanup(); ac = heap_stats.requests_nonzero - a0; bc = heap_stats.bytes_requested - b0;
+      /* the same knob build at the shipped sizes: shows whether the triple changed the code path at all (the variants of this
+       * mode have no block/header cache, so the request sequence is a pure function of the code path, not of earlier calls) */
+      m4sim_l1 = 32768; m4sim_l2 = 1310720; m4sim_l3 = 56623104;
+      a0 = heap_stats.requests_nonzero; b0 = heap_stats.bytes_requested;
+      eval_family(fam, LK, route, k, cutoff, fl, &gr);
+      ar = heap_stats.requests_nonzero - a0; br = heap_stats.bytes_requested - b0;
+      cov->configs += 2;
+      cov->probes[Q_XVAL_PAIRS]++;
+      /* families whose evaluation also calls the reference library (A*X, P*L*U*Q reconstruction) have the reference's cached blocks in their
+       * request counts: their allocation signature is not a pure function of the variant's code path and is not compared */
+      int sig_ok = strcmp(fam, "solve") && strcmp(fam, "pluq") && strcmp(fam, "ple");
+      if (sig_ok && (ak != ar || bk != br)) cov->probes[Q_XVAL_KNOB_EFFECT]++;
+      if (!canon_eq(&gk, &gc) || (sig_ok && (ak != ac || bk != bc))) {
+        viol = 2;
+        snprintf(vnote, sizeof vnote, "KNOB MECHANISM: %s under {%s}: knob build %016llx (%llu requests, %llu bytes) vs constant build %016llx (%llu requests, %llu bytes)", fam, cfgl[i], (unsigned long long)gk.h[0],
+                 (unsigned long long)ak, (unsigned long long)bk, (unsigned long long)gc.h[0], (unsigned long long)ac, (unsigned long long)bc);
+      } else if (!canon_eq(&gc, &gr)) {
+        viol = 1;
+        snprintf(vnote, sizeof vnote, "%s under {%s} (literal cache sizes) differs from the shipped configuration", fam, cfgl[i]);
+      }
+      simlog_u64(gc.h[0] ^ ak);
+      continue;
+    }
     if (sscanf(cfgl[i], "cfg %31s %ld %ld %ld %d %d %d %d %d %llu", vn, &l1, &l2, &l3, &k, &cutoff, &route, &fl, &team, &ss) != 10) continue;
     const lib_t *L = lib_by_name(vn);
     if (!L) continue; /* variant not linked into this binary (quick tier links a subset) */
@@ -290,6 +327,8 @@ static int tdim(rng_t *r, int maxd, long l3) { /* dimensions at and around the k
   if (d > maxd) d = maxd;
   return d;
 }
+static int g_xval; /* >0: number of constant-size variants k0..k{n-1} linked; their triples come from argv */
+static long g_xtrip[16][3];
 static void gen_program(uint64_t rseed, uint64_t idx, const char *tier, sbuf_t *o) {
   rng_t root = rng_make(rseed);
   rng_t r = rng_split(&root, "gen"), rc = rng_split(&root, "cfg");
@@ -336,6 +375,14 @@ static void gen_program(uint64_t rseed, uint64_t idx, const char *tier, sbuf_t *
     sb_printf(o, "mat 1 %d %d %s 128 %llu\n", m > n ? m : n, w, rng_chance(&r, 1, 3) ? "zero" : "rand", s2);
   }
   sb_printf(o, "family %s %d\n", fam, full);
+  if (g_xval) {
+    for (int i = 0; i < 6; i++) {
+      int t = (int)rng_below(&rc, (uint64_t)g_xval);
+      long cuts2[] = { 0, 64, 128, 256, 1024 };
+      sb_printf(o, "xcfg s_t_q k%d %ld %ld %ld %d %ld %d %d\n", t, g_xtrip[t][0], g_xtrip[t][1], g_xtrip[t][2], (int)rng_below(&rc, 9), cuts2[rng_below(&rc, 5)], (int)rng_below(&rc, 3), full);
+    }
+    return;
+  }
   int ncfg = thorough ? 24 : 12;
   long l1s[] = { 4096, 8192, 16384, 32768, 65536 }, l2s[] = { 32768, 65536, 262144, 1310720, 2097152 };
   long cuts[] = { 0, 64, 128, 192, 256, 512, 1024, 2048, 100 };
@@ -354,7 +401,7 @@ static const char *classify(const child_res_t *cr) {
   if (sim_shared->aux[6]) return "region_never_joins";
   if (cr->fate != FATE_EXIT0) { static char b[64]; snprintf(b, sizeof b, "faultfree_%s", fate_names[cr->fate]); return b; }
   if (!sim_shared->completed) return "incomplete";
-  return sim_shared->aux[3] ? "result_depends_on_configuration" : "ok";
+  return sim_shared->aux[3] == 2 ? "HARNESS_knob_mechanism_mismatch" : sim_shared->aux[3] ? "result_depends_on_configuration" : "ok";
 }
 static const char *prop_of(const char *cls) { return !strncmp(cls, "faultfree_", 10) ? "C11" : !strcmp(cls, "region_never_joins") ? "C16" : "C12"; }
 
@@ -363,6 +410,10 @@ static int cmd_worker(int argc, char **argv) {
   uint64_t seed = strtoull(argv[2], NULL, 10), first = strtoull(argv[3], NULL, 10), count = strtoull(argv[4], NULL, 10);
   const char *tier = argv[5], *outdir = argv[6];
   double budget = argc > 7 ? atof(argv[7]) : 1e9, t0 = eng_now();
+  if (argc > 9 && !strcmp(argv[8], "xval")) { /* xval L1:L2:L3,L1:L2:L3,... */
+    char *sp = strdup(argv[9]);
+    for (char *q = strtok(sp, ","); q && g_xval < 16; q = strtok(NULL, ",")) if (sscanf(q, "%ld:%ld:%ld", &g_xtrip[g_xval][0], &g_xtrip[g_xval][1], &g_xtrip[g_xval][2]) == 3) g_xval++;
+  }
   char errpath[512], cur[512];
   snprintf(errpath, sizeof errpath, "%s/stderr-%llu.txt", outdir, (unsigned long long)first);
   snprintf(cur, sizeof cur, "%s/cur-%llu.prog", outdir, (unsigned long long)first);
